@@ -74,7 +74,8 @@ def run_case(spec):
   pmod = bootstrap.mm('tbrmmdesignparameters')
   dmod = bootstrap.mm('tbrmmdiagnostics')
   tbr = bootstrap.mm('tbr')
-  n = gen.weighted(r, [(3, 1), (4, 1), (5, 1), (r.randrange(6, 15), 3), (r.randrange(15, 60), 3), (r.randrange(60, 121), 2)])
+  n = gen.weighted(r, [(3, 1), (4, 1), (5, 1), (r.randrange(6, 15), 3), (r.randrange(15, 60), 3), (r.randrange(60, 121), 2),
+                       (r.randrange(480, 1300), 0.4)])      # long daily / hourly pre-periods (d.f. in the hundreds)
   m = gen.weighted(r, [(1, 1), (2, 1), (r.randrange(3, 15), 3), (r.randrange(15, 61), 2)])
   sig = r.choice([0.9, 0.8, 0.95, 0.6, round(r.uniform(0.01, 0.995), 4)])
   power = r.choice([0.8, 0.9, 0.5, 0.7, round(r.uniform(0.01, 0.995), 4)])
@@ -245,6 +246,6 @@ def run_case(spec):
   if any(not util.close(a, b, rtol=1e-15) for a, b in zip(vals, neg)):
     add('symmetric', 'impact-not-symmetric-in-corr', 'estimate_required_impact(q) != estimate_required_impact(-q): %r vs %r' % (vals, neg))
   return {'nontrivial': True, 'fp': util.fp([n, m, sig, power, flevel]),
-          'classes': ['n=3' if n == 3 else 'n<=5' if n <= 5 else 'n<15' if n < 15 else 'n>=15'],
+          'classes': ['n=3' if n == 3 else 'n<=5' if n <= 5 else 'n<15' if n < 15 else 'n>=15' if n < 480 else 'n>=480'],
           'counters': dict(counters), 'violations': violations[:6],
           'sample': dict(desc, required_impact=ri, tbr_scale=scale_tbr, corr=corr)}
